@@ -139,6 +139,22 @@ func (n *Net) OpenUDP() []string {
 	return out
 }
 
+// UDPAt returns the open UDP socket bound at "ip:port" (nil if none).
+func (n *Net) UDPAt(k string) *UDPSock {
+	n.mu.Lock()
+	defer n.mu.Unlock()
+
+	return n.udp[k]
+}
+
+// ListenerAt returns the open listener bound at "ip:port" (nil if none).
+func (n *Net) ListenerAt(k string) *Listener {
+	n.mu.Lock()
+	defer n.mu.Unlock()
+
+	return n.lst[k]
+}
+
 // OpenListeners lists open TCP listeners, sorted.
 func (n *Net) OpenListeners() []string {
 	n.mu.Lock()
